@@ -84,10 +84,12 @@ pub fn check(h: &History, rep: &mut EpReport, topic_pool: &[String], sub_pool: &
                     per_topic.entry(name.clone()).or_default().push(mk(read(code == 0)));
                 }
             }
-            Op::ListTopics { project, token, .. } => {
+            Op::ListTopics { project, token, size } => {
                 if let Out::Names { names, next } = out {
-                    // only complete single-page listings are usable as a contains() read
-                    if token.is_empty() && next.is_empty() && names.len() < 20 {
+                    // only complete single-page listings are usable as a contains() read: a first page
+                    // that is shorter than its page size (the server issues a token after every page)
+                    let _ = next;
+                    if token.is_empty() && names.len() < page_capacity(*size) {
                         for t in topic_pool {
                             if t.starts_with(&format!("{}/topics/", project)) {
                                 per_topic.entry(t.clone()).or_default().push(mk(read(names.contains(t))));
@@ -146,9 +148,10 @@ pub fn check(h: &History, rep: &mut EpReport, topic_pool: &[String], sub_pool: &
                     per_sub.entry(sub.clone()).or_default().push(mk(read(code == 0)));
                 }
             }
-            Op::ListSubs { project, token, .. } => {
+            Op::ListSubs { project, token, size } => {
                 if let Out::Subs { subs, next } = out {
-                    if token.is_empty() && next.is_empty() && subs.len() < 20 {
+                    let _ = next;
+                    if token.is_empty() && subs.len() < page_capacity(*size) {
                         for s in sub_pool {
                             if s.starts_with(&format!("{}/subscriptions/", project)) {
                                 match subs.iter().find(|v| v.name == *s) {
@@ -200,6 +203,12 @@ pub fn check(h: &History, rep: &mut EpReport, topic_pool: &[String], sub_pool: &
         }
     }
     st
+}
+
+/// Entries a page of the given requested size can hold (0 = the default of 20; the server's cap is
+/// 1000): a page with fewer entries is the last one.
+fn page_capacity(size: i32) -> usize {
+    if size <= 0 { 20 } else { (size as usize).min(1000) }
 }
 
 fn apply(state: Option<u64>, act: &Act, attrs: &HashMap<u64, Attrs>) -> Option<Option<u64>> {
